@@ -389,8 +389,8 @@ def run(tier, seed):
     import chan_common
     net_viol, net_cov = chan_common.channet_part(
         PID, tier, seed, wd,
-        profiles=[("default", 3, 120), ("async", 3, 80)], families=[("failwin", 80), ("fanin", 60)],
-        thorough_profiles=[("default", 3, 1200), ("async", 3, 800), ("asyncreest", 3, 400)], thorough_families=[("failwin", 800), ("fanin", 600), ("fwdlate", 200)])
+        profiles=[("default", 3, 150), ("async", 3, 100), ("nodisc", 3, 60)], families=[("badonion", 60)],
+        thorough_profiles=[("default", 3, 1500), ("async", 3, 1000), ("asyncreest", 3, 400), ("nodisc", 3, 500)], thorough_families=[("badonion", 500)])
     if net_cov["path_success_events_judged"] < 50 and not net_viol and not nviol:
         raise vlib.ToolError("vacuity: only %d PaymentPathSuccessful events judged on real networks" % net_cov["path_success_events_judged"])
     nviol += net_viol
